@@ -179,6 +179,9 @@ class EvalProp(PropCheck):
             return Verdict("violation", detail="model/spec driver did not answer: M=%r R=%r" % (M, R), nontrivial=nt, key=key)
         if not K.get("wf", True):
             return Verdict("ok", detail="document outside the domain (duplicate member names)")
+        if not K.get("rx", True):
+            self.count("skipped_regex_outside_dialect")
+            return Verdict("ok", detail="a regular expression of the case is outside the modelled dialect: nothing is claimed")
         if isinstance(I, str):
             # evaluation failed, panicked, aborted or the valid query string was rejected
             return Verdict("violation", detail="implementation answered %s where RFC 9535 selects %r" % (I, locs(R)), nontrivial=nt, key=key)
@@ -196,6 +199,10 @@ class EvalProp(PropCheck):
         if oI == oR:
             if oM != oI:
                 return Verdict("stale", detail="model differs from impl = RFC", nontrivial=nt, key=key)
+            if K.get("dotcr", False):
+                # RFC 9485 reads '.' as excluding CR; the dialect of this library lets it match CR
+                self.count("known_D25")
+                return Verdict("known", cls="D25-dot-matches-CR", detail="'.' matched a carriage return", nontrivial=nt, key=key)
             return Verdict("ok", nontrivial=nt, key=key)
         if oI == oM:
             cls = self.known_class(c, ans, I, M, R, S_, K)
@@ -600,9 +607,46 @@ class C10(EvalProp):
     n_quick = 6000
 
     def profile(self):
-        return gen.Profile(selectors=["filter", "name", "wild"], functions=["length", "count", "value"], filter_depth=2, max_segments=2)
+        return gen.Profile(selectors=["filter", "name", "wild"], functions=["length", "count", "value"], regex=True, filter_depth=2, max_segments=2)
+
+    def regex_cases(self):
+        """enumerated small patterns x all subjects of length <= 3 over {a,b,c} plus special subjects"""
+        import itertools
+        atoms = ["a", "b", ".", "[ab]", "[^a]", "[a-c]", "(a|b)", "(ab)", "c"]
+        quants = ["", "*", "+", "?", "{2}", "{1,2}", "{2,}"]
+        pats = set()
+        for x in atoms:
+            for qx in quants:
+                pats.add(x + qx)
+                for y in atoms[:5]:
+                    pats.add(x + qx + y)
+                    pats.add(x + qx + "|" + y)
+        pats |= {"", "^a", "a$", "^a$", "^a|b$", "a|", "|a", "()", "(a|)", "a)(?:b", "(", ")", "[", "a**", "a{", "a{2,1}", "[b-a]", "(?:a|b)c",
+                 "^", "$", "a^", "$a", "(^a)", "a|b|c", "((a))", "[.]", "[ab][ab]", ".*", ".+", "..", "a.c", "a\\.c", "a\\\\", "\\(a\\)", "[\\]]", "a\\nb"}
+        subs = [""] + ["".join(t) for n in (1, 2, 3) for t in itertools.product("abc", repeat=n)] + ["a\rb", "a\nb", "a.c", "(a)", "abab", "aab", "bbbb", "a\\", "]", "\r", "\n", "é", "\U0001F600", "ab\U0001F600"]
+        doc = ("a",) + tuple(S(x) for x in subs) + (("i", 1), "null", ("a", S("a")))
+        out = []
+        pats = sorted(pats)
+        if self.tier == "quick":
+            pats = self.rng.sample(pats, 160) + ["^a|b$", "a)(?:b", "a.c", ".", "a|", "", "(a|b)c"]
+        for p in pats:
+            for fn in ("match", "search"):
+                q = ("q", ("sel", ("filter", ("atom", ("atest", ("tfn", (fn, ("argt", ("rel",)), ("argl", ("str", S(p))))), 0)))))
+                out.append(self.make_case("t", q, doc, {"fn": fn, "pattern": p}))
+        # the pattern taken from the document, and non-string arguments
+        pd = o_(regex=S("a.c"), vals=("a", S("abc"), S("a.c"), S("ac"), ("i", 3)))
+        for fn in ("match", "search"):
+            q = ("q", ("sel", ("name", S("vals"))), ("sel", ("filter", ("atom", ("atest", ("tfn", (fn, ("argt", ("rel",)), ("argt", ("abs", ("sel", ("name", S("regex"))))))), 0)))))
+            out.append(self.make_case("t", q, pd, {"fn": fn, "pattern": "from-document"}))
+            for bad in (("argl", ("int", 1)), ("argl", "null"), ("argt", ("abs", ("sel", ("name", S("missing")))))):
+                q = ("q", ("sel", ("name", S("vals"))), ("sel", ("filter", ("atom", ("atest", ("tfn", (fn, ("argt", ("rel",)), bad)), 0)))))
+                out.append(self.make_case("t", q, pd, {"fn": fn, "pattern": "not-a-string"}))
+        return out
 
     def extra_cases(self):
+        return self.value_fn_cases() + self.regex_cases()
+
+    def value_fn_cases(self):
         vals = V_ALL
         doc = ("a",) + tuple(o_(x=v) for v in vals) + (("o",), o_(x=S("\U0001F600\u00e9a")), o_(x=("a", ("i", 1), ("i", 2), ("i", 3))))
         out = []
